@@ -242,8 +242,33 @@ func oneHistory(run *vh.Run, label string, hi, nBlocks int) {
 			fmt.Sscan(o.nq, &n)
 			run.Count("noisy_queries_answered_during_replay", n)
 		}
+		if o.v.Noisy && tracesDiffer(leader, o.tr) {
+			// Followers with concurrent query goroutines are schedule-dependent. A divergence there is re-examined once with
+			// a second, independent run of the same follower: reported when it shows up again (at any block), otherwise
+			// counted as a divergence that could not be reproduced (design: a trial is re-run once before it decides).
+			tr2, _, e2 := runFollower(binDir, dir, histPath, qPath, o.v)
+			if e2 == "" && !tracesDiffer(leader, tr2) {
+				run.Count("noisy_follower_divergences_not_reproduced_on_rerun", 1)
+				fmt.Printf("NOTE property=C01 follower %s of %s diverged once and agreed with the leader when re-run (schedule-dependent, not reproduced)\n", o.v.Name, label)
+				compareTraces(run, label, o.v.Name, o.v, leader, tr2, allPlans)
+				continue
+			}
+		}
 		compareTraces(run, label, o.v.Name, o.v, leader, o.tr, allPlans)
 	}
+}
+
+// tracesDiffer tells whether a follower trace differs from the leader's in anything the property names.
+func tracesDiffer(leader, tr []BlockTrace) bool {
+	if len(tr) != len(leader) {
+		return true
+	}
+	for i := range leader {
+		if what, _, _ := Compare(leader[i], tr[i]); what != "" {
+			return true
+		}
+	}
+	return false
 }
 
 func compareTraces(run *vh.Run, label, name string, v Variant, leader, tr []BlockTrace, plans [][]*vh.TxPlan) {
